@@ -448,6 +448,39 @@ fn main() {
         t
     });
 
+    // J2b: zero-padded exponents (valid JSON numbers) and zero-padded digit fields (numeric strings) of every length
+    let pad_max: usize = tier.pick(130, 600);
+    run.bound("J2b_zero_padding", format!("0..={}", pad_max));
+    run.par("J2b zero-padded exponents and digit fields", pad_max + 1, |z| {
+        let mut t = Tally::default();
+        let zs = "0".repeat(z);
+        let docs: Vec<String> = vec![format!("7.25E+{}12", zs), format!("-1e-{}7", zs), format!("15e{}3", zs), format!("0.{}5", zs), format!("1.{}e{}2", zs, zs)];
+        for d in docs {
+            t.states += 1;
+            for e in ENTRIES {
+                t.transitions += 1;
+                t.nontrivial += 1;
+                if let Some(v) = check_doc(e, &d) {
+                    run.report(v);
+                }
+            }
+            let quoted = format!("\"{}\"", d);
+            for e in ["BigDecimal", "json_num"] {
+                t.transitions += 1;
+                if let Some(v) = check_doc(e, &quoted) {
+                    run.report(v);
+                }
+            }
+            // numeric strings also allow leading zeros in the integer part
+            let q2 = format!("\"{}{}\"", zs, d);
+            t.transitions += 1;
+            if let Some(v) = check_doc("BigDecimal", &q2) {
+                run.report(v);
+            }
+        }
+        t
+    });
+
     // J3: malformed numeric strings: long numerals of several shapes with one character inserted at /
     // substituted for every position, from an alphabet of ASCII junk and 2-, 3- and 4-byte characters; through
     // the string-reading entries: an error, never a panic (no byte offset derived from the length may be used
